@@ -5,7 +5,8 @@ import random
 from lib import common, bdds
 
 THEOREMS = ["C06_union", "C06_intersect", "C06_diff", "C06_complement", "C06_from_node", "C06_bdd_to_dnf", "C06_dnf_to_bdd",
-            "C06_tag_codes", "C06_literal_sets", "C06_nonvacuous"]
+            "C06_tag_codes", "C06_literal_sets", "C06_semtype_union", "C06_semtype_intersect", "C06_semtype_diff",
+            "C06_semtype_complement", "C06_semtype_nonvacuous", "C06_nonvacuous"]
 IMPORTS = "From Beff Require Import Model.Cases Model.SemSpec."
 OPS = {"union": "||", "intersect": "&&", "diff": "&&!"}
 
